@@ -15,7 +15,6 @@ def build(ctx):
     fxt.replace("Decimal::one()", "crate::rust_decimal::dec_lit(Ghost(1real))", 'R2', count=0)
     fxt.replace('currency.as_str().to_string() + ".FX"', 'crate::fmt_stub()', 'H')
     btx = Src(ctx, 'peripheral/broker/broker_tx.rs').cut_tests().standard()
-    btx.drop_rx(r'(?m)^impl Into<crate::portfolio::CsvTx> for BrokerTx \{', why='(conversion to CsvTx: string formatting)')
     btx.strip_derive('BrokerTx', 'Clone')
     sc = Src(ctx, 'peripheral/sheet_common.rs').cut_tests().standard()
     sc.only(['struct SheetParseError', 'impl SheetParseError'])
